@@ -20,7 +20,7 @@ def project(mir):
 
 
 def classify(kind, rec, mir):
-    if gc.rewraps(rec["events"]):
+    if gc.rewraps(rec["events"], rec.get("real")):
         return "NoRewrap"
     if gc.binding_inconsistent(rec):
         return "BindingConsistent"
